@@ -22,7 +22,19 @@ class C08(Machine):
 
     def gen_params(self, sc, rng):
         sc["params"] = {"prefix": rng.choice([0, 0, 1, 2, 3]), "queries": rng.randint(1, 3), "knob_mode": rng.choice(["default", "random", "relative", "relative"])}
-        if rng.random() < 0.35:
+        if rng.random() < 0.15:
+            # block scan: non-default limits from the start, block expansion / build (whose
+            # motif-avoidance checks run candidate searches under those limits and record
+            # "no attractor here" results), then the candidates of every node
+            sc["params"] = {"mode": "block_scan", "op": rng.choice(["block", "block", "build", "scc"]), "prefix": 0, "queries": 14, "knob_mode": "default"}
+            cfg = dict(DEFAULT_CONFIG)
+            for k in ("attractor_candidates_limit", "retained_set_optimization_threshold"):
+                if rng.random() < 0.8:
+                    cfg[k] = rng.choice([0, 1, 1, 2, 2, 3, 5])
+            if rng.random() < 0.3:
+                cfg["minimum_simulation_budget"] = rng.choice([0, 1, 10])
+            sc["config"] = cfg
+        elif rng.random() < 0.35:
             # skip scan: partial expansion, skipping, then candidates of every node in a seeded
             # order (skip nodes prune by what other nodes already proved empty)
             sc["params"] = {"mode": "skip_scan", "expand": rng.randint(1, 4), "skip": rng.choice(["remaining", "each", "remaining"]), "prefix": 0, "queries": 14, "knob_mode": "default"}
@@ -33,7 +45,7 @@ class C08(Machine):
 
     def gen_scenario(self, run_seed, tier):
         sc = super().gen_scenario(run_seed, tier)
-        if sc["params"].get("mode") == "skip_scan":
+        if sc["params"].get("mode") in ("skip_scan", "block_scan"):
             from ..machine import sub_rng
             from ..netgen import gen_network
 
@@ -72,6 +84,21 @@ class C08(Machine):
             return st["pending"].pop(0)
         if p.get("mode") == "skip_scan":
             return self.choose_skip_scan(world, st, rng, step)
+        if p.get("mode") == "block_scan":
+            if st["n_prefix"] == 0:
+                st["n_prefix"] = 1
+                if p["op"] == "block":
+                    return {"op": "block", "maa": True, "size": None, "opt_src": rng.random() < 0.7, "exact": False}
+                if p["op"] == "scc":
+                    return {"op": "scc", "maa": True}
+                return {"op": "build"}
+            if st.get("queue") is None:
+                q = list(world.node_ids())
+                rng.shuffle(q)
+                st["queue"] = [world.space_of(i) for i in q][: p["queries"]]
+            if not st["queue"]:
+                return None
+            return {"op": "candidates", "node": st["queue"].pop(), "compute": True, "greedy": rng.random() < 0.7, "sim": rng.random() < 0.7, "q": True}
         if st["n_prefix"] < p["prefix"]:
             st["n_prefix"] += 1
             return structural_op(world, rng)
